@@ -195,7 +195,7 @@ theorem uncompleted_call_has_holder (h : Reach cfg s) (hl : poolAlive s) {c : Na
     | none => rw [hth] at h3; simp at h3
     | some th =>
       rw [hth] at h3
-      refine ⟨t, th, rfl, hfin t th hth ?_, h3⟩
+      refine ⟨t, th, hth, hfin t th hth ?_, h3⟩
       intro e; simp [weight, e] at h3
   · right
     have hr1 : 1 ≤ ringTok c s.pool := by omega
@@ -207,7 +207,8 @@ theorem uncompleted_call_has_holder (h : Reach cfg s) (hl : poolAlive s) {c : Na
       have h4 : p.ring.pushLog[x]? = some (some c) ∧ x ∉ p.ring.popLog.map Prod.fst := by
         by_cases hq : p.ring.pushLog[x]? = some (some c) ∧ x ∉ p.ring.popLog.map Prod.fst
         · exact hq
-        · simp [hq] at h3
+        · have h3' : 1 ≤ (if p.ring.pushLog[x]? = some (some c) ∧ x ∉ p.ring.popLog.map Prod.fst then 1 else 0) := h3
+          rw [if_neg hq] at h3'; omega
       have hlen := full_pushLog_len h hp
       by_cases hhx : p.ring.head ≤ x
       · exact Or.inl ⟨p, x, rfl, hhx, by omega, h4.1⟩
@@ -227,7 +228,7 @@ theorem uncompleted_call_has_holder (h : Reach cfg s) (hl : poolAlive s) {c : Na
               split at ht
               · next pc l hs => injection ht with ht; subst ht; rw [hs]; rfl
               · cases ht
-            refine ⟨p, x, t, th, rfl, h4.1, rfl, hfin t th hth ?_, htop⟩
+            refine ⟨p, x, t, th, rfl, h4.1, hth, hfin t th hth ?_, htop⟩
             intro e; rw [e] at htop; cases htop
 
 end
